@@ -73,6 +73,62 @@ CHECKS["C10"] = {
     "explanation": "format!(\"{:#}\") / parse::parse_text / Vm::eval / Vm::eval_text composed four ways and compared with a strict structural identity",
 }
 
+NUM_TRUST = TRUSTED_COMMON + [
+    "oracle arithmetic is num::BigRational / BigInt (shared trusted base with marwood); none of marwood's representation dispatch is shared",
+    "operands are handed to Vm::eval as Cell::Number values of the intended representation (fix32/fix64/big/rat/ratint/flo), which the public "
+    "API permits; a second set of carriers is computed by Scheme expressions and binned by the representation actually observed",
+]
+
+CHECKS["C08"] = {
+    "engine": "c08",
+    "level": "exploration",
+    "lanes_quick": [("release", None), ("chk", None)],
+    "lanes_thorough": [("release", None), ("chk", None)],
+    "floors": {"exact_results": 100000, "tolerance_checks": 10000, "variadic_events": 1000, "zero_divisor_cases": 100},
+    "rule": "all ordered pairs of a palette (fixed boundary part: 0, +-1, +-2, +-2^31/32/53/63/64 +-{0,1,2}; seeded random part: 16..256-bit "
+            "integers and reduced rationals up to 2^31-1; every integer carried as fixnum, bignum and integer-valued rational where it fits; plus "
+            "carriers computed in Scheme) under + - * / quotient remainder modulo; every carrier under abs floor ceiling truncate numerator "
+            "denominator, unary - and /, and expt with exponents 0..70 (exponent also carried as bignum / integer-valued rational); plus random "
+            "pairs and 3-4 element lists for variadic + and *. One evaluation = one (op operands) call judged against exact rational arithmetic. "
+            "distinct_nontrivial counts distinct (lhs value, lhs representation, rhs value, rhs representation) pairs.",
+    "assumptions": NUM_TRUST + [
+        "representable = integer, or lowest-terms numerator and denominator both fit in i32 (the implementation's exact rational type)",
+        "results whose true magnitude exceeds f64::MAX are outside the tolerance oracle (no double can be within 2^-50 relative of them)",
+        "zero divisors: any returned error is accepted, only a panic is reported",
+    ],
+    "explanation": "event log {op, operands with observed representation, result} checked offline-style against BigRational arithmetic: exactness, "
+                   "representability, 2^-50 tolerance, truncating/flooring integer division",
+}
+
+CHECKS["C09"] = {
+    "engine": "c09",
+    "level": "exploration",
+    "lanes_quick": [("release", None), ("chk", None)],
+    "lanes_thorough": [("release", None), ("chk", None)],
+    "floors": {"pairs": 50000, "triples": 10000, "trichotomy_observed": 50000},
+    "rule": "all ordered pairs of the C08 palette extended with doubles (integers near 2^31/32/52/53/62/63/64 +-2 ulp, +-0.0, subnormals, +-inf, "
+            "f64 extremes, the nearest double of every exact palette member and its two neighbours, random bit patterns) under < = > <= >= min max; "
+            "every carrier under zero? positive? negative?; sampled triples (biased to neighbours in value order) for transitivity of = and < and "
+            "for variadic-equals-conjunction. distinct_nontrivial counts distinct (value, representation) ordered pairs.",
+    "assumptions": NUM_TRUST + ["NaN is excluded (the property says so); infinities are ordered below/above every finite value"],
+    "explanation": "truth values of the comparison procedures compared with the exact rational order; transitivity and variadic consistency checked on "
+                   "the observed answers themselves",
+}
+
+CHECKS["C16"] = {
+    "engine": "c16",
+    "level": "exploration",
+    "lanes_quick": [("release", None), ("chk", None)],
+    "lanes_thorough": [("release", None), ("chk", None)],
+    "floors": {"inverse_roundtrips": 100000},
+    "rule": "every member of the C08/C09 palettes at every applicable radix (exact: 2, 8, 10, 16; inexact finite: 10), plus random doubles by bit "
+            "pattern, fixnums, bignums (62..256 bits), reduced rationals of both signs. One evaluation = number->string, string->number on the "
+            "result, identity check (exact value and exactness; doubles by bit pattern), and the spelling evaluated as a source literal with the "
+            "matching #b/#o/#d/#x prefix. distinct_nontrivial counts distinct (number, representation, radix) triples that completed the round trip.",
+    "assumptions": NUM_TRUST,
+    "explanation": "composition (string->number (number->string z r) r) executed in the VM and compared with z; literal evaluation compared with string->number",
+}
+
 # ---- texts for MANIFEST.json (tools/gen_manifest.py) ----
 MANIFEST_TEXT = {}
 NOT_APPLICABLE = {}
@@ -105,4 +161,27 @@ MANIFEST_TEXT["C10"] = {
                   "around every format switch). Exploration, not proof.",
     "level_note": "Trusts the strict comparison (60 lines), num's BigRational for exact values, and that the generator's symbol filter (the reader itself) "
                   "matches the property's 'symbols that the reader can produce'.",
+}
+
+MANIFEST_TEXT["C08"] = {
+    "technique": "runtime monitoring: event-log checker against an arbitrary-precision rational oracle over a boundary-biased operand palette in every representation, release and overflow-checked builds",
+    "design_ref": "DESIGN.md 6 C08",
+    "level_text": "Every operator is driven over all ordered pairs of a boundary-biased palette in each representation (about 2*10^5 events per build in quick) "
+                  "and each result is judged by exact rational arithmetic. Known representation-pair fallbacks that the pinned unit tests fix are listed as "
+                  "open findings by (operator, representation pair, kind); anything else is a violation.",
+    "level_note": "Trusts num's BigInt/BigRational. The palette is finite: values between the boundaries are only sampled.",
+}
+MANIFEST_TEXT["C09"] = {
+    "technique": "runtime monitoring: comparison results checked against the exact rational order over all palette pairs in every representation; transitivity/variadic consistency checked on observed answers",
+    "design_ref": "DESIGN.md 6 C09",
+    "level_text": "All ordered pairs of a palette of exact numbers in every representation plus adversarially adjacent doubles are compared by the VM and by "
+                  "exact arithmetic; sampled triples check transitivity independent of the oracle.",
+    "level_note": "Trusts num's BigRational and BigRational::from_float for the exact value of a double.",
+}
+MANIFEST_TEXT["C16"] = {
+    "technique": "runtime monitoring: inverse-function oracle (print, read back, compare by exact value/exactness/bit pattern) plus literal-vs-string->number agreement",
+    "design_ref": "DESIGN.md 6 C16",
+    "level_text": "Hundreds of thousands of numbers per run across representations, signs and radices go through the real procedures and must come back "
+                  "identical; the printed spelling is also evaluated as a prefixed literal.",
+    "level_note": "Trusts the identity comparison and num's BigRational.",
 }
